@@ -108,18 +108,18 @@ type ShardResp struct {
 
 // Outcome is what one event did on the real code.
 type Outcome struct {
-	Result  string      `json:"result"` // ok | err | PANIC | HANG
-	Panic   bool        `json:"panic"`  // err caused by a panic recovered at the tx boundary
-	Err     string      `json:"err"`
-	Space   string      `json:"space"`
-	Code    int64       `json:"code"`
-	OrderId int64       `json:"orderId"`
-	Shards  []ShardResp `json:"shards"`
-	Items   []string    `json:"items"`   // per-item verdicts of Renew/Migrate: ok|fail
-	Claimed int64       `json:"claimed"` // ClaimReward response
-	Phase   string      `json:"phase"`   // where a block event failed
-	Blocks  int64       `json:"blocks"`  // blocks actually advanced
-	Insufficient bool   `json:"insufficient"` // failure text mentions insufficient funds
+	Result       string      `json:"result"` // ok | err | PANIC | HANG
+	Panic        bool        `json:"panic"`  // err caused by a panic recovered at the tx boundary
+	Err          string      `json:"err"`
+	Space        string      `json:"space"`
+	Code         int64       `json:"code"`
+	OrderId      int64       `json:"orderId"`
+	Shards       []ShardResp `json:"shards"`
+	Items        []string    `json:"items"`        // per-item verdicts of Renew/Migrate: ok|fail
+	Claimed      int64       `json:"claimed"`      // ClaimReward response
+	Phase        string      `json:"phase"`        // where a block event failed
+	Blocks       int64       `json:"blocks"`       // blocks actually advanced
+	Insufficient bool        `json:"insufficient"` // failure text mentions insufficient funds
 }
 
 func (c *Chain) dataConcrete(sym string) string {
@@ -272,7 +272,7 @@ func (c *Chain) Msg(e *Event) sdk.Msg {
 	case "DidUpdate":
 		return c.didUpdateMsg(e)
 	case "PayAddrSid":
-		return &didtypes.MsgUpdatePaymentAddress{Creator: c.addr(e.Creator), AccountId: "cosmos:" + ChainID + ":" + c.addr(e.Acc), Did: c.Concrete(e.Did)}
+		return &didtypes.MsgUpdatePaymentAddress{Creator: c.addr(e.Creator), AccountId: c.accountIdOf(e.Acc), Did: c.Concrete(e.Did)}
 	case "Send":
 		return &banktypes.MsgSend{FromAddress: c.addr(e.Creator), ToAddress: c.addr(e.Acc), Amount: sdk.NewCoins(sdk.NewInt64Coin(Denom, e.Amount))}
 	case "Delegate":
@@ -457,7 +457,9 @@ func (c *Chain) sidDocId(doc string) string {
 }
 
 // signSid: a JWS made with the key of the sid document e.Signer. The protected header's kid is
-//   did:sid:<D>?version-id=<document id of e.Signer>#authentication
+//
+//	did:sid:<D>?version-id=<document id of e.Signer>#authentication
+//
 // where D is the signer's own DID (sigmode ok / stale) or the proposal owner's DID (sigmode kidspoof: the header claims
 // the owner, the version-id points at the signer's document).
 func (c *Chain) signSid(e *Event, payload []byte) saotypes.JwsSignature {
